@@ -46,7 +46,7 @@ func runC06(c *core.Ctx) {
 		}
 		for _, call := range calls {
 			pErrNil := core.PIsNil(errVarOf(call))
-			pOne := func(e core.Edge) bool { return glob("F:(const(1) < len(*", p.EdgeAtom(e)) }
+			pOne := func(e core.Edge) bool { return glob("T:(len(*) < const(2))", p.EdgeAtom(e)) }
 			pNoLock := func(e core.Edge) bool {
 				at := p.EdgeAtom(e)
 				return glob("T:call(error.IsErrWriteConflict)*", at) || glob("T:call(error.IsErrKeyExist)*", at)
